@@ -71,10 +71,16 @@ def layout(nbig):
     return bins, segs, members
 
 
-def h_stats(ctx, nbig, stats_cfg, alpha=0.5):
+def h_stats(ctx, nbig, stats_cfg, alpha=0.5, skip_low=False, smoothed=False):
     bins, segs, members = layout(nbig)
+    if skip_low:
+        # a null-coverage bin in front: it is dropped first, so row labels no longer equal positions
+        bins = [("chr1", 0, 1)] + [(c, s + 1 if c == "chr1" and s == 0 else s, e) for c, s, e in bins]
+        members = [[i + 1 for i in m] for m in members]
     nb = len(bins)
     logs = [ctx.real(f"b{i}", -10, 10) for i in range(nb)]
+    if skip_low:
+        logs[0] = -30.0
     slog = [ctx.real(f"s{k}", -10, 10) for k in range(len(segs))]
     wts = [[0.5, 1.0, 0.25, 0.75, 0.9, 0.6, 0.3][i % 7] for i in range(nb)]
     cna = make_cna({"chromosome": [b[0] for b in bins], "start": [b[1] for b in bins], "end": [b[2] for b in bins], "gene": ["g"] * nb, "log2": list(logs), "weight": wts})
@@ -94,15 +100,27 @@ def h_stats(ctx, nbig, stats_cfg, alpha=0.5):
     orig_stats = segmetrics.stats
     segmetrics.stats = stub
     descriptives.biweight_midvariance = bivar_spy
+    ci_args = []
+    real_ci = segmetrics.confidence_interval_bootstrap
+
+    def ci_spy(values, weights, *a, **k):
+        ci_args.append((list(values), list(weights)))
+        return real_ci(values, weights, *a, **k)
+
+    segmetrics.confidence_interval_bootstrap = ci_spy
     try:
-        out = segmetrics.do_segmetrics(cna, sega, loc, spread, interval, alpha, 4 if alpha == 0.5 else 8)
+        out = segmetrics.do_segmetrics(cna, sega, loc, spread, interval, alpha, 4 if alpha == 0.5 else 8, smoothed, skip_low)
     except Exception as exc:
         ctx.claim(False, f"do_segmetrics raised {type(exc).__name__}", info=str(exc)[:200])
         return
     finally:
         segmetrics.stats = orig_stats
         descriptives.biweight_midvariance = real_bivar
+        segmetrics.confidence_interval_bootstrap = real_ci
     ctx.claim(len(out) == len(segs), "one output row per segment")
+    if "ci" in interval:
+        want_ci = [([logs[i] for i in mem], [wts[i] for i in mem]) for mem in members if mem]
+        ctx.claim(len(ci_args) == len(want_ci) and all(len(a[0]) == len(b[0]) and all(bool(approx(x, y)) for x, y in zip(a[0], b[0])) and all(bool(approx(x, y)) for x, y in zip(a[1], b[1])) for a, b in zip(ci_args, want_ci)), "the bootstrap is run on exactly the segment's own bins and their own weights")
     for name, vals in (("log2", slog), ("start", [s[1] for s in segs]), ("end", [s[2] for s in segs])):
         ctx.claim(all(bool(approx(a, b)) for a, b in zip(col(out, name), vals)), "the input segments' own columns are unchanged")
     for a, b in zip(col(sega, "log2"), slog):
@@ -153,7 +171,8 @@ def h_stats(ctx, nbig, stats_cfg, alpha=0.5):
         if "ci" in interval:
             lo, hi = get("ci_lo"), get("ci_hi")
             ctx.claim(lo <= hi, "ci_lo <= ci_hi")
-            ctx.claim(And(lo >= Min_(xs) - 1e-9, hi <= Max_(xs) + 1e-9), "the bootstrap interval lies inside the bins' range")
+            if not smoothed:
+                ctx.claim(And(lo >= Min_(xs) - 1e-9, hi <= Max_(xs) + 1e-9), "the bootstrap interval lies inside the bins' range")
         ctx.cover(f"segment with {min(n, 3)} bins")
     if "p_ttest" in loc:
         want = [[logs[i] for i in mem] for mem in members]
@@ -165,7 +184,7 @@ def h_stats(ctx, nbig, stats_cfg, alpha=0.5):
         # reproducible run to run
         segmetrics.stats = stub
         try:
-            out2 = segmetrics.do_segmetrics(cna, sega, (), (), ("ci",), alpha, 4 if alpha == 0.5 else 8)
+            out2 = segmetrics.do_segmetrics(cna, sega, (), (), ("ci",), alpha, 4 if alpha == 0.5 else 8, smoothed, skip_low)
         finally:
             segmetrics.stats = orig_stats
         for a, b in zip(col(out, "ci_lo") + col(out, "ci_hi"), col(out2, "ci_lo") + col(out2, "ci_hi")):
@@ -274,6 +293,8 @@ HARNESSES = [
             {"nbig": 3, "stats_cfg": [[], ["iqr"], []]},
             {"nbig": 3, "stats_cfg": [["median"], [], ["pi"]]},
             {"nbig": 3, "stats_cfg": [[], [], ["ci"]]},
+            {"nbig": 3, "stats_cfg": [["mean"], ["stdev"], ["ci", "pi"]], "skip_low": True},
+            {"nbig": 2, "stats_cfg": [[], [], ["ci"]], "smoothed": True},
             {"nbig": 2, "stats_cfg": [list(ALL_LOC), list(ALL_SPREAD), ["pi", "ci"]]},
             {"nbig": 4, "stats_cfg": [["mean", "median"], ["stdev", "mse", "sem"], ["pi"]], "tier": "thorough"},
             {"nbig": 3, "stats_cfg": [[], [], ["ci", "pi"]], "alpha": 0.25, "tier": "thorough"},
